@@ -19,7 +19,10 @@ import json,sys
 src=sys.argv[1]
 a=json.load(open('/verif/known_findings.json')); b=json.load(open(src+'/known_findings.json'))
 ids={(x['property'],x['id']): x for x in a['findings']}
+own=src.rstrip('/').split('/')[-1][:3]
 for x in b['findings']:
+    if x['property']!=own:
+        continue      # a builder only speaks for its own property (stale copies of others' entries are ignored)
     k=(x['property'],x['id'])
     if k not in ids:
         a['findings'].append(x)
